@@ -101,6 +101,23 @@ CLAIMED = {
              'universe; is_identifier abstracted; locking is C15. All theorems closed under the global context.',
         technique='Coq invariant proof over creation histories (memo keyed by Python ==) + differential correspondence',
         design='5/C17'),
+    'C04': dict(
+        text='Machine-checked (Coq 8.16.1): for every signature over the five parameter kinds with pairwise '
+             'distinct names and every call that CPython\'s binding rule accepts, the values selected by the '
+             'regenerated localisation snippets (indexed as code_check_args enumerates parameters) are, per '
+             'annotated parameter and in order, exactly the values bound to that parameter (positionally, by '
+             'keyword, surplus in *args, excess keywords in **kwargs including those reusing positional-only names); '
+             'unpassed defaults select nothing; when all selected values pass the original is called with the very '
+             'call received, when one fails a genuine violation is raised before any call, and an unbindable call '
+             'never runs the body. The binding rule is compared with CPython and the selections with the real '
+             'wrapper\'s isinstance checks (spy annotation classes) on every run; run count, argument and result '
+             'identity, exception class are observed on the implementation.',
+        note='Trusted: Coq kernel; the argtemplates.py translator (fail-closed ast match of the five localisation '
+             'snippets and the call-through templates); exec() of the assembled wrapper, the return check and '
+             'bound-method self-skipping are observed on the implementation only. All theorems closed under the '
+             'global context.',
+        technique='Coq proof (list induction over CPython binding rule vs translator-regenerated selection snippets) + differential correspondence with CPython binding and logged checks',
+        design='5/C04'),
 }
 
 PENDING_REASON = ('not yet built in this round: the proof development for this property is scheduled (DESIGN.md '
